@@ -361,3 +361,5 @@ def correspond(seed, tier):
         elif model_files != produced:
             dis.append(dict(id=rid, kind="files", impl=produced, model=model_files))
     return dict(evaluations=len(expect), disagreements=dis, worst_ratio=0.0, distribution=dist, samples=[], cases={})
+
+DRIVERS = ["drvp"]
